@@ -54,7 +54,7 @@ ASSUMPTIONS = [
     "sliver names obey the library's own name validators, so in sliver/topology operations names are identifiers and "
     "site / boot script / details / model are the values",
 ]
-BUDGET = {"quick": 40000, "thorough": 1200000}
+BUDGET = {"quick": 40000, "thorough": 400000}
 MIN_LABEL_FRACTION = {"has-quote": 0.4, "has-backslash": 0.2, "has-brace": 0.15, "has-dollar": 0.1,
                       "has-newline": 0.1, "has-keyword": 0.05, "long": 0.02, "kind:primitive": 0.3,
                       "kind:compound": 0.2, "aligned": 0.9}
